@@ -43,7 +43,18 @@ type OwnerCase struct {
 	Side      string   `json:"side"`      // server-play | server-record | client-play | client-record
 	Transport string   `json:"transport"` // udp | tcp | multicast
 	Seq       []string `json:"seq"`       // PLAY | PAUSE | RECORD
-	Writes    int      `json:"writes"`
+	// Outcomes[i] of request i: "" / "ok" = the handler accepts; "refuse" = the server handler answers
+	// 501 and the connection stays up (nothing may change); "wirefail" = the server cuts the connection
+	// instead of answering
+	Outcomes []string `json:"outcomes,omitempty"`
+	Writes   int      `json:"writes"`
+}
+
+func (oc *OwnerCase) outcome(i int) string {
+	if i < len(oc.Outcomes) && oc.Outcomes[i] != "" {
+		return oc.Outcomes[i]
+	}
+	return "ok"
 }
 
 const ownerWait = 1500 * time.Millisecond
@@ -337,6 +348,23 @@ type ownerHandler struct {
 	sessClosed   atomic.Int64
 	sess         atomic.Pointer[gortsplib.ServerSession]
 	lastWriteErr atomic.Pointer[error]
+	next         atomic.Pointer[string] // outcome of the next PLAY / RECORD / PAUSE (consumed by it)
+}
+
+// planned applies the outcome planned for this request; handled = do not run the normal handler.
+func (h *ownerHandler) planned(sc *gortsplib.ServerConn) (*base.Response, error, bool) {
+	o := h.next.Swap(nil)
+	if o == nil {
+		return nil, nil, false
+	}
+	switch *o {
+	case "refuse":
+		return &base.Response{StatusCode: base.StatusNotImplemented}, nil, true
+	case "wirefail":
+		sc.NetConn().Close()
+		return &base.Response{StatusCode: base.StatusBadRequest}, fmt.Errorf("connection cut by the test"), true
+	}
+	return nil, nil, false
 }
 
 func okRes() *base.Response { return &base.Response{StatusCode: base.StatusOK} }
@@ -357,6 +385,9 @@ func (h *ownerHandler) OnSetup(ctx *gortsplib.ServerHandlerOnSetupCtx) (*base.Re
 }
 
 func (h *ownerHandler) OnPlay(ctx *gortsplib.ServerHandlerOnPlayCtx) (*base.Response, error) {
+	if res, err, done := h.planned(ctx.Conn); done {
+		return res, err
+	}
 	ctx.Session.OnPacketRTCPAny(func(_ *description.Media, pkt rtcp.Packet) { h.recv.addRTCPPacket(pkt) })
 	ctx.Session.OnPacketRTPAny(func(_ *description.Media, _ format.Format, pkt *rtp.Packet) { h.recv.addRTP(pkt.SequenceNumber) })
 	h.sess.Store(ctx.Session)
@@ -364,6 +395,9 @@ func (h *ownerHandler) OnPlay(ctx *gortsplib.ServerHandlerOnPlayCtx) (*base.Resp
 }
 
 func (h *ownerHandler) OnRecord(ctx *gortsplib.ServerHandlerOnRecordCtx) (*base.Response, error) {
+	if res, err, done := h.planned(ctx.Conn); done {
+		return res, err
+	}
 	ctx.Session.OnPacketRTPAny(func(_ *description.Media, _ format.Format, pkt *rtp.Packet) {
 		h.recv.addRTP(pkt.SequenceNumber)
 	})
@@ -371,7 +405,10 @@ func (h *ownerHandler) OnRecord(ctx *gortsplib.ServerHandlerOnRecordCtx) (*base.
 	return okRes(), nil
 }
 
-func (h *ownerHandler) OnPause(*gortsplib.ServerHandlerOnPauseCtx) (*base.Response, error) {
+func (h *ownerHandler) OnPause(ctx *gortsplib.ServerHandlerOnPauseCtx) (*base.Response, error) {
+	if res, err, done := h.planned(ctx.Conn); done {
+		return res, err
+	}
 	return okRes(), nil
 }
 
@@ -660,12 +697,26 @@ func runOwnerServer(c *corr.Ctx, oc *OwnerCase) {
 	active := false
 	for i, req := range oc.Seq {
 		method := map[string]base.Method{"PLAY": base.Play, "PAUSE": base.Pause, "RECORD": base.Record}[req]
-		res, err := rc.do(method, u, nil, nil)
-		if err != nil || res.StatusCode != base.StatusOK {
-			fail(fmt.Sprintf("request #%d %s", i+1, req), res, err)
-			return
+		out := oc.outcome(i)
+		if out != "ok" {
+			srv.h.next.Store(&out)
 		}
-		active = req != "PAUSE" || mcast
+		res, err := rc.do(method, u, nil, nil)
+		if out == "wirefail" {
+			break // the connection is gone: the session must wind up (checked after Server.Close)
+		}
+		if out == "refuse" {
+			if err != nil || res.StatusCode == base.StatusOK {
+				fail(fmt.Sprintf("request #%d %s (to be refused by the handler)", i+1, req), res, err)
+				return
+			}
+		} else {
+			if err != nil || res.StatusCode != base.StatusOK {
+				fail(fmt.Sprintf("request #%d %s", i+1, req), res, err)
+				return
+			}
+			active = req != "PAUSE" || mcast
+		}
 		want := 0
 		if active {
 			want = 1
@@ -714,15 +765,16 @@ func runOwnerServer(c *corr.Ctx, oc *OwnerCase) {
 func runOwnerClient(c *corr.Ctx, oc *OwnerCase) {
 	r := &ownerRun{c: c, oc: oc, where: "client.go", seq: 2000}
 	r.base = waitConsumers(0, ownerWait)
-	play := oc.Side == "client-play"
-	srv, err := startOwnerServer(oc.Transport, play)
+	back := oc.Side == "client-play-back"
+	play := oc.Side == "client-play" || back
+	srv, err := startOwnerServerOpt(oc.Transport, play, 0, back)
 	if err != nil {
 		c.Note("owner scenario skipped, server did not start: " + err.Error())
 		return
 	}
 	got := &pktLog{} // what the client read (play)
 	cl := &gortsplib.Client{Scheme: "rtsp", Host: srv.addr, ReadTimeout: 5 * time.Second, WriteTimeout: 5 * time.Second,
-		DisableRTCPSenderReports: true, OnPacketsLost: func(uint64) {}, OnDecodeError: func(error) {}}
+		RequestBackChannels: back, DisableRTCPSenderReports: true, OnPacketsLost: func(uint64) {}, OnDecodeError: func(error) {}}
 	cl.VerifSetReportPeriods(10*time.Second, 20*time.Millisecond)
 	if oc.Transport == "tcp" {
 		cl.Protocol = new(gortsplib.ProtocolTCP)
@@ -731,8 +783,9 @@ func runOwnerClient(c *corr.Ctx, oc *OwnerCase) {
 	}
 	closed := false
 	defer func() {
-		if !closed {
-			cl.Close()
+		if !closed && !bounded(cl.Close) {
+			stuck()
+			r.viol("Close returns", "errclose-hang", "Client.Close did not return within 3 s")
 		}
 		srv.close()
 		if !r.bad {
@@ -745,7 +798,7 @@ func runOwnerClient(c *corr.Ctx, oc *OwnerCase) {
 	}
 	u, _ := base.ParseURL("rtsp://" + srv.addr + "/teststream")
 	media := ownerMedia()
-	var playMedia *description.Media
+	var playMedia, backMedia *description.Media
 	if play {
 		desc, _, err := cl.Describe(u)
 		if err != nil {
@@ -758,6 +811,15 @@ func runOwnerClient(c *corr.Ctx, oc *OwnerCase) {
 		}
 		cl.OnPacketRTPAny(func(_ *description.Media, _ format.Format, p *rtp.Packet) { got.addRTP(p.SequenceNumber) })
 		playMedia = desc.Medias[0]
+		for _, m := range desc.Medias {
+			if m.IsBackChannel {
+				backMedia = m
+			}
+		}
+		if back && backMedia == nil {
+			r.viol("a lifecycle request that is legal in the current state succeeds", "owner-request-failed", "DESCRIBE: no back-channel media")
+			return
+		}
 	} else {
 		desc := &description.Session{Medias: []*description.Media{media}}
 		if _, err := cl.Announce(u, desc); err != nil {
@@ -773,6 +835,14 @@ func runOwnerClient(c *corr.Ctx, oc *OwnerCase) {
 	var expected []uint16
 	for i, req := range oc.Seq {
 		var err error
+		legal := (req == "PAUSE") == active // PLAY/RECORD only when paused, PAUSE only when active
+		out := oc.outcome(i)
+		if !legal {
+			out = "ok" // refused by the client itself: the request never reaches the server
+		}
+		if out != "ok" {
+			srv.h.next.Store(&out)
+		}
 		switch req {
 		case "PLAY":
 			_, err = cl.Play(nil)
@@ -781,12 +851,23 @@ func runOwnerClient(c *corr.Ctx, oc *OwnerCase) {
 		default:
 			_, err = cl.Pause()
 		}
-		legal := (req == "PAUSE") == active // PLAY/RECORD only when paused, PAUSE only when active
-		if legal && err != nil {
+		if out == "wirefail" {
+			break // the connection is gone: Client.Close / Server.Close must wind everything up
+		}
+		if out == "refuse" {
+			// refused by the server handler, connection up: the request fails and NOTHING changes —
+			// in particular a client that keeps playing / recording keeps a running queue
+			if err == nil {
+				r.viol("a lifecycle request refused by the server is reported to the caller", "owner-request-failed", fmt.Sprintf("request #%d %s was answered 501 but the client reported success", i+1, req))
+				return
+			}
+			legal = false
+			err = nil
+		} else if legal && err != nil {
 			r.viol("a lifecycle request that is legal in the current state succeeds", "owner-request-failed", fmt.Sprintf("request #%d %s: %v", i+1, req, err))
 			return
 		}
-		if !legal && err == nil {
+		if !legal && err == nil && out != "refuse" {
 			r.viol("a lifecycle request in the wrong state is refused by the client and changes nothing", "owner-illegal-accepted",
 				fmt.Sprintf("request #%d %s was accepted although the client is %s", i+1, req, map[bool]string{true: "active", false: "paused"}[active]))
 			return
@@ -802,7 +883,18 @@ func runOwnerClient(c *corr.Ctx, oc *OwnerCase) {
 		if r.bad {
 			return
 		}
-		if !play {
+		if back {
+			// a playing client with a back channel: the queue carries the application's RTP
+			before, _ := srv.h.recv.snapshot()
+			r.checkDelivery(i+1, active, oc.Writes, func(p *rtp.Packet) error {
+				p.PayloadType = 8
+				return cl.WritePacketRTP(backMedia, p)
+			}, srv.h.recv, func() int64 { return 0 })
+			if active {
+				after, _ := srv.h.recv.snapshot()
+				expected = append(expected, after[len(before):]...)
+			}
+		} else if !play {
 			before, _ := srv.h.recv.snapshot()
 			r.checkDelivery(i+1, active, oc.Writes, func(p *rtp.Packet) error { return cl.WritePacketRTP(media, p) }, srv.h.recv, func() int64 { return 0 })
 			if active {
@@ -824,7 +916,10 @@ func runOwnerClient(c *corr.Ctx, oc *OwnerCase) {
 		}
 	}
 	r.noStale(srv.h.recv, expected)
-	cl.Close()
+	if !bounded(cl.Close) {
+		stuck()
+		r.viol("Close returns", "errclose-hang", "Client.Close did not return within 3 s")
+	}
 	closed = true
 }
 
@@ -885,7 +980,41 @@ func ownerScenarios(c *corr.Ctx, maxLen int) {
 		}
 		runOwner(c, &OwnerCase{Kind: "owner", Side: "server-play", Transport: "multicast", Seq: sq, Writes: 12})
 	}
+	// outcome axis: one request of the sequence is refused by the handler / cut on the wire
+	withOutcomes := func(side, tr string, sq []string, writes int) {
+		for pos := range sq {
+			for _, o := range []string{"refuse", "wirefail"} {
+				if enough() {
+					return
+				}
+				outs := make([]string, len(sq))
+				outs[pos] = o
+				seq := sq
+				if o == "wirefail" {
+					seq, outs = sq[:pos+1], outs[:pos+1]
+					if pos+1 < len(sq) {
+						continue // the same prefix is enumerated on its own
+					}
+				}
+				runOwner(c, &OwnerCase{Kind: "owner", Side: side, Transport: tr, Seq: seq, Outcomes: outs, Writes: writes})
+			}
+		}
+	}
 	for _, tr := range []string{"tcp", "udp"} {
+		for _, sq := range ownerSeqs([]string{"PLAY", "PAUSE"}, maxLen-1, anySeq) {
+			withOutcomes("server-play", tr, sq, 8)
+			withOutcomes("client-play-back", tr, sq, 8)
+		}
+		for _, sq := range ownerSeqs([]string{"RECORD", "PAUSE"}, maxLen-1, recordLegal) {
+			withOutcomes("server-record", tr, sq, 6)
+			withOutcomes("client-record", tr, sq, 8)
+		}
+		for _, sq := range ownerSeqs([]string{"PLAY", "PAUSE"}, maxLen, anySeq) {
+			if enough() {
+				return
+			}
+			runOwner(c, &OwnerCase{Kind: "owner", Side: "client-play-back", Transport: tr, Seq: sq, Writes: 12})
+		}
 		for _, sq := range ownerSeqs([]string{"PLAY", "PAUSE"}, maxLen, anySeq) {
 			if enough() {
 				return
